@@ -17,7 +17,7 @@ def probe_lines(t, tr_path, cid, maybe_send_rc=False):
         s1, e1, _d = m.call_args(50, "p%d" % mi)
         L += ["    " + s for s in s1]
         L.append("    { let fut = x.%s(%s); ::vrt::fact(\"send:%s\", ::vrt::value_is!(&fut ; ::core::marker::Send)); ::vrt::fact(\"out:%s\", ::vrt::output_type_name(&fut)); }" % (
-            m.name, ", ".join(e1), m.name, m.name))
+            m.cname(), ", ".join(e1), m.name, m.name))
     L.append("}")
     return L
 
@@ -26,7 +26,7 @@ def build_case(cid, rng, selector, unimock=False, force_async=False, no_send=Fal
     dyn = selector in ("ref", "Borrow")
     want_async = force_async or rng.random() < 0.5
     with_at = dyn and want_async
-    t = tg.random_trait(rng, "Tr", dyn_safe=dyn, allow_async=(want_async or not dyn), with_async_trait=with_at)
+    t = tg.random_trait(rng, "Tr", dyn_safe=dyn, allow_async=(want_async or not dyn), with_async_trait=with_at, uninferable=True)
     if not want_async:
         for m in t.methods:
             m.is_async = False
@@ -140,7 +140,7 @@ def build_case(cid, rng, selector, unimock=False, force_async=False, no_send=Fal
                 s1, e1, _d = m.call_args(50, "q")
                 D += ["    " + x for x in s1]
                 D.append('    { let fut = %s; ::vrt::fact("dout:%s", ::vrt::output_type_name(&fut)); }' % (
-                    direct.format(m=m.name, args="".join(", " + e for e in e1), args0=", ".join(e1)), m.name))
+                    direct.format(m=m.cname(), args="".join(", " + e for e in e1), args0=", ".join(e1)), m.name))
     D.append('    ::vrt::fact("avail_right", ::vrt::implements!(::entrait::Impl<%s>: %s));' % (right, tr))
     D.append('    ::vrt::fact("avail_nonprov", ::vrt::implements!(::entrait::Impl<NonProv>: %s));' % tr)
     D.append('    ::vrt::fact("avail_wrong_selector", ::vrt::implements!(::entrait::Impl<%s>: %s));' % (wrong if dyn else "AppRef", tr))
@@ -159,13 +159,13 @@ def build_case(cid, rng, selector, unimock=False, force_async=False, no_send=Fal
         s2, e2, d2 = m.call_args(base, "%dt" % mi)
         base += len(m.params) + 1
         wrap = (lambda c: "::vrt::block_on(%s)" % c) if m.is_async else (lambda c: c)
-        dcall = direct.format(m=m.name, args="".join(", " + e for e in e1), args0=", ".join(e1))
+        dcall = direct.format(m=m.cname(), args="".join(", " + e for e in e1), args0=", ".join(e1))
         D.append('    ::vrt::phase("direct:%s");' % m.name)
         D += ["    " + s for s in s1]
         D.append('    let r = %s; ::vrt::result(&r); ::vrt::kv("rtn", ::vrt::tn(&r)); ::vrt::record_polls();' % wrap(dcall))
         D.append('    ::vrt::phase("impl:%s");' % m.name)
         D += ["    " + s for s in s2]
-        D.append('    let r = %s; ::vrt::result(&r); ::vrt::kv("rtn", ::vrt::tn(&r)); ::vrt::record_polls();' % wrap("app.%s(%s)" % (m.name, ", ".join(e2))))
+        D.append('    let r = %s; ::vrt::result(&r); ::vrt::kv("rtn", ::vrt::tn(&r)); ::vrt::record_polls();' % wrap("app.%s(%s)" % (m.cname(), ", ".join(e2))))
         calls.append({"m": m.name, "fn": "%s::Prov::%s" % (cid, m.name), "args": d1, "async": m.is_async})
     D.append("}")
     sigs = [m.trait_sig().replace(m.name, "") for m in t.methods]
